@@ -155,6 +155,54 @@ class Translator:
         raise Opaque("l-value kind %s" % k)
 
     # -------------------------------------------------------------------------------------------
+    # ---- comparison of a float MEMBER with a non-negative float CONSTANT, on the member's bit pattern ----
+    # A float member lives in the model as its 32-bit pattern u (unsigned). For a constant c >= 0 with pattern bc:
+    #   x >= c  <=>  bc <= u <= 0x7F800000   (c > 0; NaNs and negatives excluded)
+    #   x >  c  <=>  bc <  u <= 0x7F800000
+    #   x <  c  <=>  u < bc  or  0x80000000 <= u <= 0xFF800000   (negatives incl. -0 and -inf; NaNs excluded)
+    #   x <= c  <=>  u <= bc or  0x80000000 <= u <= 0xFF800000
+    # (IEEE-754 binary32: for non-negative values the order of the patterns is the order of the values.)
+    FLOAT_CONSTS = {"NiFloatMax": 0x7F7FFFFF, "NiFloatInf": 0x7F800000}
+
+    def float_const(self, n):
+        while n.get("kind") in ("ParenExpr", "ImplicitCastExpr", "ConstantExpr", "ExprWithCleanups") and n.get("inner"):
+            n = n["inner"][-1]
+        if n.get("kind") == "DeclRefExpr":
+            v = self.FLOAT_CONSTS.get(n.get("referencedDecl", {}).get("name"))
+            if v is not None:
+                return v
+        if n.get("kind") == "FloatingLiteral":
+            import struct
+            f = float(n["value"])
+            if f > 0.0:
+                return struct.unpack("<I", struct.pack("<f", f))[0]
+        return None
+
+    def float_member(self, n, cx):
+        while n.get("kind") in ("ParenExpr", "ImplicitCastExpr") and n.get("inner"):
+            if n.get("kind") == "ImplicitCastExpr" and n.get("castKind") not in ("LValueToRValue", "NoOp"):
+                return None
+            n = n["inner"][-1]
+        if n.get("kind") not in ("MemberExpr", "ArraySubscriptExpr"):
+            return None
+        name, idx, t = self.lvalue(n, cx)
+        if name.startswith("$") or strip_type(t) != "float":
+            return None
+        return ("load", name, idx)
+
+    def float_cmp(self, op, a, b, cx):
+        flip = {"<": ">", ">": "<", "<=": ">=", ">=": "<="}
+        m, c = self.float_member(a, cx), self.float_const(b)
+        if m is None or c is None:
+            m, c, op = self.float_member(b, cx), self.float_const(a), flip[op]
+        if m is None or c is None or c == 0:
+            raise Opaque("floating-point comparison other than <member> <op> <positive constant>")
+        inf, neg0, ninf = 0x7F800000, 0x80000000, 0xFF800000
+        if op in (">=", ">"):
+            return ("bin", "and", ("bin", "ge" if op == ">=" else "gt", m, ("const", c)), ("bin", "le", m, ("const", inf)))
+        return ("bin", "or", ("bin", "lt" if op == "<" else "le", m, ("const", c)),
+                ("bin", "and", ("bin", "ge", m, ("const", neg0)), ("bin", "le", m, ("const", ninf))))
+
     def expr(self, n, cx):
         k = n.get("kind")
         if k in ("ParenExpr", "ExprWithCleanups", "MaterializeTemporaryExpr", "ConstantExpr", "CXXBindTemporaryExpr"):
@@ -236,6 +284,9 @@ class Translator:
                    "==": "eq", "!=": "ne", "&&": "and", "||": "or", "&": "band", "|": "bor", "^": "bxor", "<<": "shl", ">>": "shr"}
             if op not in ops:
                 raise Opaque("binary operator %s" % op)
+            if op in ("<", ">", "<=", ">=") and strip_type(self.type_of(n["inner"][0])[0]) == "float" \
+                    and strip_type(self.type_of(n["inner"][1])[0]) == "float":
+                return self.float_cmp(op, n["inner"][0], n["inner"][1], cx)
             a = self.expr(n["inner"][0], cx)
             b = self.expr(n["inner"][1], cx)
             e = ("bin", ops[op], a, b)
